@@ -82,4 +82,26 @@ def scrollUp (s : St) : St := { s with offset := s.offset - 1 }
 def setText (s : St) (cs : List Ch) : St := { s with text := cs }
 def relayout (flush : Bool) (s : St) : St := { s with lines := layout flush s.width s.text }
 
+/-! ### histories -/
+
+/-- What an application does with a pager between draws: scroll by a line, set `Offset` directly
+    (it is an exported field), replace the text (`Segments`) with or without calling `Layout()`. -/
+inductive Op where
+  | scrollDown | scrollUp
+  | setOffset (k : Int)
+  | setText (cs : List Ch)
+  | relayout
+  | draw (w h : Nat)
+deriving DecidableEq, Repr
+
+def step (flush : Bool) (s : St) : Op → St
+  | .scrollDown => scrollDown s
+  | .scrollUp => scrollUp s
+  | .setOffset k => { s with offset := k }
+  | .setText cs => setText s cs
+  | .relayout => relayout flush s
+  | .draw w h => (draw flush s w h).1
+
+def run (flush : Bool) (s : St) (ops : List Op) : St := ops.foldl (step flush) s
+
 end VaxisModel.Model.Pager
